@@ -198,7 +198,7 @@ uint8_t bpm_256(const uint8_t* t,const uint8_t* p,int n,int m)
         }
 
         for(i = 0; i < m;i++){
-                f[p[i]][i/32] |= (1 << (i % 32));
+                f[p[i]][i/32] |= (1u << (i % 32));
         }
 
         /* for(i = 0; i < 13;i++){ */
